@@ -15,7 +15,7 @@ TraceNext ==
           /\ cache' = [f \in AllFiles |-> NotLoaded]
           /\ dirty' = {} /\ created' = {}
           /\ temp' = [cur |-> T(<<"id", "v">>, <<>>), rp |-> T(<<"id", "v">>, <<>>)]
-          /\ ended' = FALSE /\ envn' = 0 /\ enc' = {} /\ out' = Ok
+          /\ ended' = FALSE /\ envn' = 0 /\ enc' = {} /\ cwd' = "top" /\ out' = Ok
        \/ /\ e.act # "init"
           /\ Do(e)
           /\ out'.k = e.obs.k /\ out'.e = e.obs.e /\ out'.vals = e.obs.vals
